@@ -139,6 +139,7 @@ class Busy:
         self.inst = Instantiator(case, backend, self.engine_cache)
         self.inst.tolerant = True
         self.inst.on_point = self.on_point
+        self.inst.on_shared = lambda k, e: self.track(f"shared:{k}", e)     # snapshot BEFORE the first verb sees it
         self.snap = {}        # label -> fingerprint at creation / last verification
         self.objs = {}        # label -> object
         self.created = {}     # point -> (ast_coq, UidMap, schema_coq) serialised at creation
